@@ -691,8 +691,8 @@ pub fn check() -> Check {
         property: "C17",
         level: "exploration",
         scenarios: vec![Box::new(Seq), Box::new(Conc)],
-        cases_quick: 40_000,
-        cases_thorough: 400_000,
+        cases_quick: 100_000,
+        cases_thorough: 2_000_000,
         rule: "c17-seq: seeded sequential histories (<= 40 ops over <= 4 consumers: register/grow/try_grow/shrink/try_shrink/resize/try_resize/split/take/new_empty/free/drop/reset_peak, sizes from {0,1,small,L/3,L/2,L,L+1,random}) checked operation by operation against a reference model, for Unbounded/Greedy/Fair x TrackConsumers x PeakRecording. c17-conc: 2-3 shuttle threads sharing 1-3 Arc<MemoryReservation>s (own or shared consumers), each running <= 4 ops and shrinking only what it grew, plus an observer thread; scheduling points at every pool lock and in front of every atomic. distinct = distinct histories (seq) or (case, schedule) pairs (conc); non-trivial = every sequential history, and concurrent schedules with a real choice",
         assumptions: vec![
             "sizes stay below 2^32 (arithmetic overflow of usize counters is not explored)",
